@@ -482,7 +482,14 @@ def parse_mir(text):
             for loc, ty in f.params:
                 f.locals[loc] = ty
             if m:
-                funcs[f.name] = f
+                # macro-generated impls share their `<impl at file:line>` name: keep every body under a unique key
+                key = f.name
+                k = 1
+                while key in funcs:
+                    k += 1
+                    key = "%s#%d" % (f.name, k)
+                f.key = key
+                funcs[key] = f
             else:
                 consts[f.name] = f
             i += 1
